@@ -9,7 +9,10 @@ rmdir "$wt"
 git -C /repo worktree add -q --detach "$wt" ${BASE:-HEAD} || exit 2
 trap 'git -C /repo worktree remove --force "$wt" 2>/dev/null; rm -rf "$wt"' EXIT
 cd "$wt" || exit 2
-if ! git apply "$patch"; then echo "patch does not apply"; exit 2; fi
+if ! git apply "$patch" 2>/dev/null; then
+  # later fix commits may have moved the context: try a three-way merge before giving up
+  if ! git apply --3way "$patch" >/dev/null 2>&1 || git diff --name-only --diff-filter=U | grep -q .; then echo "patch does not apply"; exit 2; fi
+fi
 go build ./... 2>&1 | tail -3
 t=$(go test -vet=off -count=1 ./... 2>&1 | grep -v "no test files" | grep -vc "^ok")
 echo "repo tests: non-ok lines=$t"
